@@ -15,8 +15,10 @@ RULE = (
     "duplicated/negative/fractional offsets, via the public constructors; rates from {1/2,3/4,1,5/4,3/2,2} and floats in "
     "(0.1,10). Oracle: plain-data model (every offset and length / r, every bpm * r, everything else equal; osu preview "
     "and sample events, StepMania sample window and file offset scale), strict snapshot of the input before/after, "
-    "rate(1) identity, rate(a).rate(b) == rate(a*b) (rel 1e-9). The 'write' sub-check renders format-valid charts, rates "
-    "them, writes them and parses the file with the independent reference parsers. "
+    "rate(1) identity, rate(a).rate(b) == rate(a*b) (rel 1e-9). The 'write-osu' / 'write-qua' sub-checks build format-valid "
+    "osu and Quaver charts, rate them, write them and parse the text with the independent reference parsers (vlib/ref/osu.py, "
+    "vlib/ref/qua.py): the text must denote the model-scaled chart with every time moved < 1 ms (rated StepMania mapsets are "
+    "written and parsed back in C03's rated histories). "
     "Non-trivial = r != 1 and the chart has >=1 hold and >=2 tempo points."
 )
 ASSUMPTIONS = [
@@ -167,8 +169,105 @@ def check_model(case, ctx):
         ctx.fail("result-shares-state", "editing the rated chart changed the original")
 
 
+
+# --------------------------------------------------------------------------- #
+# rate -> write: the written file of the rated chart denotes the scaled timeline
+# (osu and Quaver here; StepMania and BMS rated histories are written in C03 / C05's own checks)
+# --------------------------------------------------------------------------- #
+WRITE_RATES = [0.5, 0.75, 1.25, 1.5, 2.0]
+wrate_st = st.one_of(st.sampled_from(WRITE_RATES), st.floats(0.25, 4.0, allow_nan=False).map(lambda x: round(x, 3)))
+
+
+@st.composite
+def write_osu_case(draw, tier):
+    from vlib.gen import osu as G
+
+    chart = draw(G.chart_strategy(tier, kind="memory", allow_negative_values=True, max_notes=16 if tier == "quick" else None))
+    return dict(chart=chart, r=draw(wrate_st))
+
+
+def _scale_osu(can, r):
+    e = copy.deepcopy(can)
+    for name in ("hits", "holds", "bpms", "svs", "samples"):
+        for o in e[name]:
+            o["offset"] = o["offset"] / r
+            if "length" in o:
+                o["length"] = o["length"] / r
+            if "bpm" in o:
+                o["bpm"] = o["bpm"] * r
+    e["meta"]["preview_time"] = e["meta"]["preview_time"] / r
+    return e
+
+
+def check_write_osu(case, ctx):
+    from vlib.gen import osu as G
+    from vlib.props import C01
+    from vlib.ref import osu as R
+
+    chart, r = case["chart"], case["r"]
+    can = G.canonical(chart)
+    exp = _scale_osu(can, r)
+    ctx.nt(r != 1.0 and len(can["holds"]) >= 1 and len(can["bpms"]) >= 2)
+    ctx.label("r<1", r < 1)
+    ctx.label("r>1", r > 1)
+    ctx.label("has-sv", bool(can["svs"]))
+    ctx.label("has-samples", bool(can["samples"]))
+    m = ctx.call("build", G.build, chart)
+    rated = ctx.call("rate", m.rate, r)
+    lines = C01._write_map(ctx, rated, False)
+    w = C01._strict(ctx, lines, "rated-osu-malformed")
+    rules = dict(C01.G6_RULES, preview_time="trunc")
+    C01._report(ctx, "rated-osu", R.diff_charts(C01._ascii_meta(exp), w, time="trunc", rel=1e-9, meta_rules=rules))
+
+
+@st.composite
+def write_qua_case(draw, tier):
+    from vlib.gen import qua as Q
+
+    chart = draw(Q.chart_strategy(tier, document=False, times="int", default_rows=False, max_notes=16 if tier == "quick" else None))
+    return dict(chart=chart, r=draw(wrate_st))
+
+
+def _scale_qua(can, r, k=1):
+    """offsets and lengths * k / r, bpm * r / k (k: integer pre-stretch keeping entries >= 2 ms apart after the rate)."""
+    e = copy.deepcopy(can)
+    for name in ("hits", "holds", "bpms", "svs"):
+        for o in e[name]:
+            o["offset"] = o["offset"] * k / r
+            if "length" in o:
+                o["length"] = o["length"] * k / r
+            if o.get("bpm") is not None:
+                o["bpm"] = o["bpm"] * r / k
+    return e
+
+
+def check_write_qua(case, ctx):
+    from vlib.gen import qua as Q
+    from vlib.props import C06
+
+    chart, r = case["chart"], case["r"]
+    k = max(1, math.ceil(r))
+    base = _scale_qua(Q.canonical(chart), 1.0, k)  # stretched source: integer times, entries >= 2k ms apart
+    pre = dict(chart)
+    for name in ("hits", "holds", "bpms", "svs"):
+        pre[name] = [dict(o, **{f: o[f] * k for f in ("offset", "length") if f in o}) for o in chart[name]]
+    exp = _scale_qua(Q.canonical(pre), r)
+    ctx.nt(r != 1.0 and len(exp["holds"]) >= 1 and len(exp["bpms"]) >= 2)
+    ctx.label("r<1", r < 1)
+    ctx.label("r>1", r > 1)
+    ctx.label("has-sv", bool(exp["svs"]))
+    m = ctx.call("build", Q.build, pre)
+    rated = ctx.call("rate", m.rate, r)
+    text, _ = C06._write(ctx, "write", rated, "str")
+    skip = [kk for kk in ("SongPreviewTime",)]
+    meta_keys = [kk for kk in Q.META_ATTR if kk not in skip]
+    C06._check_written(ctx, "rated-qua", text, exp, meta_keys=meta_keys)
+
+
 SUBS = [
     Sub("model", check_model, strategy=case_st, examples={"quick": 250, "thorough": 2500}, shards={"quick": 6, "thorough": 16}),
+    Sub("write-osu", check_write_osu, strategy=write_osu_case, examples={"quick": 120, "thorough": 1500}, shards={"quick": 4, "thorough": 16}),
+    Sub("write-qua", check_write_qua, strategy=write_qua_case, examples={"quick": 120, "thorough": 1500}, shards={"quick": 4, "thorough": 16}),
 ]
 
 MANIFEST = dict(
